@@ -13,6 +13,9 @@
 //	5   an object whose Enqueue raced with Stop is written completely or not touched
 //	    (its scheduled flag is not left set)
 //	6   permanence rules on goroutine snapshots (DESIGN §1.4 rule 3)
+//	7   store faults (one Commit / Batched / BatchWrite call fails once): the process dies
+//	    (fail-stop: the unchanged writer panics on a store error) or everything above still holds,
+//	    the writes of the failed batch counting as not happened
 //
 // Schedules: gated (hooks bw.enqueue.afterRunningCheck / bw.enqueue.beforeSend),
 // "Enqueue immediately followed by Stop", and seeded stress with jittered yields;
@@ -23,6 +26,7 @@ package main
 import (
 	"encoding/binary"
 	"encoding/json"
+	"errors"
 	"fmt"
 	"math/rand"
 	"os"
@@ -65,7 +69,17 @@ const (
 	fpStore       = "store-differs-from-last-batchwrite"
 	fpRegress     = "store-regressed-to-older-version"
 	fpForeignDone = "batchwritedone-from-another-writer"
+	fpDoneFailed  = "done-after-failed-commit"
+
+	// store-fault family: every finding of a run in which the injected store fault fired and the
+	// process carried on gets this prefix (a swallowed store error is a defect of its own)
+	fpFaultPrefix = "store-fault-survived:"
 )
+
+// errInjected is what the k-th faulted call returns (Commit, Batched) or panics with (BatchWrite).
+// Its text is the harness's own marker; it is only used to annotate a fail-stop death, never to
+// decide one.
+var errInjected = errors.New("c08-injected-store-fault-5d1e7")
 
 // caseGuard bounds the time one run may go WITHOUT observable progress (no harness event logged,
 // no writer-side call) before it is given up as INCONCLUSIVE – never a verdict. While progress is
@@ -108,6 +122,11 @@ type caseRec struct {
 	// flush-boundary family
 	FlushK, FlushD, After int   `json:",omitempty"` // Flush while k*batchSize+d objects are collected/queued (incl. one re-enqueue); further objects afterwards
 	CaseSeed              int64 `json:"case_seed"`
+	// store-fault family: the FaultAt-th call (1-based) of the kind fails once – "commit": that
+	// BatchedMutations.Commit returns an error and applies nothing; "batched": that store.Batched()
+	// returns an error; "batchwrite": the object's own BatchWrite panics
+	Fault   string `json:"fault,omitempty"`
+	FaultAt int    `json:"fault_at,omitempty"`
 	// observations of a violating run
 	Fingerprint string   `json:"fingerprint,omitempty"`
 	Log         []string `json:"log,omitempty"`
@@ -122,7 +141,19 @@ func (cs *caseRec) name() string {
 	if cs.Bare {
 		b += "/bare"
 	}
+	if cs.Fault != "" {
+		b += fmt.Sprintf("/fault:%s@%d", cs.Fault, cs.FaultAt)
+	}
 	return fmt.Sprintf("%s#%d%s q=%d b=%d t=%s", cs.Kind, cs.Idx, b, cs.Q, cs.B, cs.timeout())
+}
+
+// label is the family name used in evidence counters: store-fault runs are kept apart from the
+// family whose schedule they borrow.
+func (cs *caseRec) label() string {
+	if cs.Fault != "" {
+		return "fault-" + cs.Kind
+	}
+	return cs.Kind
 }
 
 func (cs *caseRec) timeout() time.Duration { return time.Duration(cs.TimeoutNs) }
@@ -159,7 +190,8 @@ type ev struct {
 
 // kinds: E/e Enqueue call/return, A/B yield points, G scheduled flag set, g flag
 // reset, S/s Stop call/return, F Flush, N store.Batched, W BatchWrite, C/c Commit
-// start/end, X Cancel (empty batch), D BatchWriteDone.
+// start/end, X Cancel (empty batch), D BatchWriteDone; store-fault family: f Commit returned the
+// injected error (nothing applied), n store.Batched returned it, P BatchWrite panicked with it.
 
 type mon struct {
 	bare bool
@@ -174,11 +206,19 @@ type mon struct {
 	regress    []string     // findings of the per-Commit store check (under mu)
 	foreign    []string     // BatchWriteDone calls that came from another writer's goroutine (under mu)
 	compacted  int          // empty N/X pairs dropped from the log (a time-out <= 0 makes an idle writer spin)
+	// store-fault family: what the callers had done when the fault fired (evidence only)
+	flushCalled, stopCalled atomic.Bool
 }
 
 func (m *mon) log(e ev) {
 	if e.P >= 0 {
 		m.hev.Add(1)
+	}
+	switch e.K {
+	case 'F':
+		m.flushCalled.Store(true)
+	case 'S':
+		m.stopCalled.Store(true)
 	}
 	if m.bare {
 		return
@@ -267,6 +307,12 @@ func fmtEv(t int, e ev) string {
 		return fmt.Sprintf("%d writer batch%d.Cancel() (empty)", t, e.B)
 	case 'D':
 		return fmt.Sprintf("%d writer obj%d.BatchWriteDone()", t, e.O)
+	case 'f':
+		return fmt.Sprintf("%d writer batch%d.Commit() returned the INJECTED error, nothing applied", t, e.B)
+	case 'n':
+		return fmt.Sprintf("%d writer store.Batched() returned the INJECTED error", t)
+	case 'P':
+		return fmt.Sprintf("%d writer obj%d.BatchWrite(batch%d) PANICKED with the injected error", t, e.O, e.B)
 	}
 	return fmt.Sprintf("%d ?%c", t, e.K)
 }
@@ -291,6 +337,14 @@ func (o *obj) BatchWrite(bm kvstore.BatchedMutations) {
 	b := 0
 	if w, ok := bm.(*wmuts); ok {
 		b = w.id
+	}
+	if o.s.faultHit("batchwrite") {
+		o.s.m.wlog(ev{K: 'P', P: -1, O: o.id, V: v, B: b})
+		o.s.fireFault("batchwrite", 0)
+		if g := o.s.writeGate; g != nil && g.used.CompareAndSwap(false, true) {
+			close(g.reached) // a script waiting for the first BatchWrite goes on (the writer is not held)
+		}
+		panic(errInjected)
 	}
 	o.s.m.wlog(ev{K: 'W', P: -1, O: o.id, V: v, B: b})
 	if g := o.s.writeGate; g != nil && g.used.CompareAndSwap(false, true) {
@@ -358,12 +412,18 @@ func (o *obj) ResetBatchWriteScheduled() {
 type wstore struct {
 	kvstore.KVStore
 	m  *mon
+	s  *scen
 	nb atomic.Int32
 	// highest version committed per key; only touched by the writer goroutine (inside Commit)
 	maxCommitted map[string]int64
 }
 
 func (w *wstore) Batched() (kvstore.BatchedMutations, error) {
+	if w.s.faultHit("batched") {
+		w.m.wlog(ev{K: 'n', P: -1})
+		w.s.fireFault("batched", 0)
+		return nil, errInjected
+	}
 	inner, err := w.KVStore.Batched()
 	if err != nil {
 		return nil, err
@@ -379,9 +439,11 @@ type wmuts struct {
 	m    *mon
 	st   *wstore
 	sets map[string]int64 // mirrors the mutations object: key -> version to be written by Commit
+	nset int              // Set calls received
 }
 
 func (w *wmuts) Set(key kvstore.Key, value kvstore.Value) error {
+	w.nset++
 	if len(value) == 8 {
 		w.sets[string(key)] = int64(binary.BigEndian.Uint64(value))
 	}
@@ -390,6 +452,13 @@ func (w *wmuts) Set(key kvstore.Key, value kvstore.Value) error {
 
 func (w *wmuts) Commit() error {
 	w.m.wlog(ev{K: 'C', P: -1, B: w.id})
+	if w.st.s.faultHit("commit") {
+		// this one Commit call fails: nothing is applied; the mutations object itself stays usable
+		// (a library that tries the same Commit again succeeds)
+		w.m.wlog(ev{K: 'f', P: -1, B: w.id})
+		w.st.s.fireFault("commit", w.nset)
+		return errInjected
+	}
 	err := w.BatchedMutations.Commit()
 	if err != nil {
 		panic(fmt.Sprintf("mapdb commit failed: %v", err))
@@ -459,6 +528,45 @@ type scen struct {
 	// beforeStop, when set, is waited for by every Stop caller (multi-writer family: all writers
 	// have been constructed)
 	beforeStop <-chan struct{}
+	// store-fault family
+	faultCalls atomic.Int32 // calls of the faulted kind so far
+	faultFired atomic.Bool
+}
+
+// faultHit counts one call of the given kind and says whether it is the one that has to fail.
+func (s *scen) faultHit(kind string) bool {
+	if s.cs.Fault != kind || int(s.faultCalls.Add(1)) != s.cs.FaultAt {
+		return false
+	}
+	s.faultFired.Store(true)
+	return true
+}
+
+// faultRec is sent to the parent just before the faulted call fails: the unchanged writer panics on
+// a store error in its own goroutine, so the process is probably about to die.
+type faultRec struct {
+	I     int    `json:"i"`   // position of the case in this child's list
+	Idx   int    `json:"idx"` // caseRec.Idx
+	Kind  string `json:"kind"`
+	Class string `json:"class"`
+	Stop  bool   `json:"stop_invoked"`
+}
+
+var curBatchPos atomic.Int64
+
+// fireFault runs in the writer goroutine, inside the call that is about to fail. The class names
+// what could be observed from outside at that moment (evidence: which of the writer's commit sites
+// were exercised is not visible from outside, their triggers are).
+func (s *scen) fireFault(kind string, nset int) {
+	class := kind
+	if kind == "commit" {
+		class += map[bool]string{true: "/batch-full", false: "/batch-partial"}[nset >= s.cs.B]
+	}
+	class += map[bool]string{true: "/flush-requested", false: "/no-flush"}[s.m.flushCalled.Load()]
+	class += map[bool]string{true: "/stop-invoked", false: "/before-stop"}[s.m.stopCalled.Load()]
+	// only a record (vf.Emit is safe from any goroutine; the counters are not: the main goroutine
+	// keeps counting while this one runs) - the parent counts
+	s.c.Emit("fault-fired", faultRec{I: int(curBatchPos.Load()), Idx: s.cs.Idx, Kind: kind, Class: class, Stop: s.m.stopCalled.Load()})
 }
 
 var cur atomic.Pointer[scen] // informational only; the hook dispatches by goroutine id
@@ -520,7 +628,7 @@ func newScen(c *vf.Ctx, cs *caseRec, nobj int) *scen {
 	default:
 		opts = []kvstore.Option{kvstore.WithQueueSize(cs.Q), kvstore.WithBatchSize(cs.B), kvstore.WithBatchTimeout(cs.timeout())}
 	}
-	s.bw = kvstore.NewBatchedWriter(&wstore{KVStore: s.inner, m: s.m, maxCommitted: map[string]int64{}}, opts...)
+	s.bw = kvstore.NewBatchedWriter(&wstore{KVStore: s.inner, m: s.m, s: s, maxCommitted: map[string]int64{}}, opts...)
 	for i := 0; i < nobj; i++ {
 		s.objs = append(s.objs, &obj{s: s, id: i, key: []byte(fmt.Sprintf("obj%d", i))})
 	}
@@ -616,6 +724,7 @@ func (w *waiter) pause() bool {
 			d = time.Millisecond
 		}
 		time.Sleep(d)
+		canarySleeps.Add(1)
 	}
 	return time.Since(w.since) < caseGuard && time.Since(w.first) < caseGuardCap
 }
@@ -766,10 +875,20 @@ func (s *scen) writerAlive(gs []gdump.G) bool { _, ok := s.liveWriter(gs); retur
 // flush or time-out: Commit or Cancel, then Batched), so an unchanged event count between two
 // observations means the writer never left the select in between.
 type idleTracker struct {
-	since time.Time
-	wev   int64
-	gid   uint64
+	since  time.Time
+	wev    int64
+	gid    uint64
+	sleeps int64
 }
+
+// canarySleeps counts the polling sleeps (waiter.pause) that have returned in this process, i.e.
+// harness timers that were armed and fired. An idle period only counts once idleCanary of them,
+// all armed after the period began, have fired: elapsed wall time alone also passes while the whole
+// process is starved of CPU (seen once at a load average of ~170 on 16 cores: a writer with a 1 ms
+// time-out looked idle for 2 s), and then no timer of the process fires, the writer's included.
+var canarySleeps atomic.Int64
+
+const idleCanary = 300
 
 // parked: the goroutine is in a blocking wait of user level, of any kind – channel send/receive,
 // select, mutex, RWMutex, Cond, WaitGroup, semaphore below package sync, … No rule depends on WHICH
@@ -815,7 +934,10 @@ func (it *idleTracker) observe(m *mon, wg gdump.G, alive bool) time.Duration {
 	}
 	n := m.wev.Load()
 	if it.since.IsZero() || n != it.wev || wg.ID != it.gid {
-		it.since, it.wev, it.gid = time.Now(), n, wg.ID
+		it.since, it.wev, it.gid, it.sleeps = time.Now(), n, wg.ID, canarySleeps.Load()
+		return 0
+	}
+	if canarySleeps.Load()-it.sleeps < idleCanary {
 		return 0
 	}
 	return time.Since(it.since)
@@ -998,6 +1120,9 @@ type wr struct {
 	v               int64
 	b               int
 	t, commit, done int
+	// failed: the Commit holding this write returned the injected error (and no later Commit of the
+	// same mutations object succeeded): the write does not count, as if it had not happened
+	failed bool
 }
 
 type finding struct{ fp, what string }
@@ -1038,6 +1163,7 @@ func (s *scen) analyze() *analysis {
 	flag := map[int]bool{}
 	flagOwner := map[int]*enq{}
 	lastG := map[int]int{}
+	exempt := map[int]bool{}
 	S, R := -1, -1
 	for t, e := range evs {
 		switch e.K {
@@ -1071,9 +1197,16 @@ func (s *scen) analyze() *analysis {
 			w := &wr{o: e.O, v: e.V, b: e.B, t: t, commit: -1, done: -1}
 			writes = append(writes, w)
 			byBatch[e.B] = append(byBatch[e.B], w)
+		case 'f':
+			for _, w := range byBatch[e.B] {
+				w.failed = true
+			}
+		case 'P':
+			// the object's own BatchWrite panicked: nothing is demanded for this object
+			exempt[e.O] = true
 		case 'c':
 			for _, w := range byBatch[e.B] {
-				w.commit = t
+				w.commit, w.failed = t, false
 			}
 			if n := len(byBatch[e.B]); n >= s.cs.B {
 				an.full++
@@ -1087,14 +1220,20 @@ func (s *scen) analyze() *analysis {
 			an.empty++
 		case 'D':
 			an.dones++
-			var m *wr
+			var m, mf *wr
 			for _, w := range writes {
-				if w.o == e.O && w.done < 0 {
+				if w.o == e.O && w.done < 0 && w.failed && mf == nil {
+					mf = w
+				}
+				if w.o == e.O && w.done < 0 && !w.failed {
 					m = w
 					break
 				}
 			}
 			switch {
+			case m == nil && mf != nil:
+				add(fpDoneFailed, "obj%d.BatchWriteDone() at tick %d although the Commit of batch%d (holding its BatchWrite of tick %d) had returned an error and nothing was stored", e.O, t, mf.b, mf.t)
+				mf.done = t
 			case m == nil:
 				add(fpDoneNoWrite, "obj%d.BatchWriteDone() at tick %d without a preceding BatchWrite that was not yet done", e.O, t)
 			case m.commit < 0:
@@ -1121,6 +1260,9 @@ func (s *scen) analyze() *analysis {
 		if s.noEnd {
 			break
 		}
+		if w.failed {
+			continue
+		}
 		if w.commit < 0 || w.done < 0 {
 			add(fpHalf, "obj%d.BatchWrite at tick %d (batch%d) but at the end of the run commit=%v done=%v (writer goroutine gone or idle for ever)", w.o, w.t, w.b, w.commit >= 0, w.done >= 0)
 		}
@@ -1133,7 +1275,7 @@ func (s *scen) analyze() *analysis {
 	}
 	if S >= 0 {
 		for _, q := range enqs {
-			if q.ret >= 0 && q.ret < S {
+			if q.ret >= 0 && q.ret < S && !exempt[q.o] {
 				an.checkedEnq++
 				best := -1
 				for _, w := range writes {
@@ -1164,6 +1306,9 @@ func (s *scen) analyze() *analysis {
 	}
 	_ = flag
 	for _, o := range objs {
+		if exempt[o] {
+			continue
+		}
 		q := flagOwner[o]
 		written := false
 		for _, w := range writes {
@@ -1201,6 +1346,7 @@ func (s *scen) analyze() *analysis {
 		val, err := s.inner.Get(o.key)
 		w := last[o.id]
 		switch {
+		case exempt[o.id]:
 		case w == nil && err == nil:
 			add(fpStore, "store holds obj%d although no BatchWrite of it was committed", o.id)
 		case w != nil && (err != nil || len(val) != 8 || int64(binary.BigEndian.Uint64(val)) != w.v):
@@ -1245,7 +1391,16 @@ func (s *scen) logStrings(max int) []string {
 func (s *scen) report(extraKey string) []string {
 	c, cs := s.c, s.cs
 	var fps []string
+	survived := s.faultFired.Load()
+	if survived {
+		c.Count("fault_survived_runs", 1)
+	}
 	viol := func(fp, what, dump string) {
+		if survived {
+			// the faulted call returned its error / panicked and the process is still here
+			fp = fpFaultPrefix + fp
+			what = fmt.Sprintf("after the injected store fault (call %d of kind %q failed once) the writer carried on instead of failing, and then: %s", cs.FaultAt, cs.Fault, what)
+		}
 		r := *cs
 		r.Fingerprint, r.Log, r.Dump = fp, s.logStrings(300), dump
 		if writerSightings.Load() == 0 {
@@ -1253,7 +1408,7 @@ func (s *scen) report(extraKey string) []string {
 			return
 		}
 		c.Violation(fp, cs.name()+": "+what, r)
-		c.Count("viol:"+cs.Kind+":"+fp, 1)
+		c.Count("viol:"+cs.label()+":"+fp, 1)
 		fps = append(fps, fp)
 	}
 	for _, a := range s.actors {
@@ -1271,12 +1426,12 @@ func (s *scen) report(extraKey string) []string {
 		}
 	}
 	c.Count("evaluations", 1)
-	c.Count("runs_"+cs.Kind, 1)
+	c.Count("runs_"+cs.label(), 1)
 	c.Count("runs_timeout="+cs.timeout().String(), 1)
 	if cs.OneP {
 		c.Count("runs_gomaxprocs1", 1)
 	}
-	c.Count("runs_"+cs.Kind+"_timeout="+cs.timeout().String(), 1)
+	c.Count("runs_"+cs.label()+"_timeout="+cs.timeout().String(), 1)
 	if cs.B >= 1000 {
 		c.Count("runs_batch_larger_than_objects", 1)
 	}
@@ -1315,7 +1470,7 @@ func (s *scen) report(extraKey string) []string {
 	if an.flagLeftSet > 0 {
 		c.Count("note_flag_left_set_after_write", an.flagLeftSet)
 	}
-	key := fmt.Sprintf("%s/%s/q%d/%s", cs.Kind, extraKey, min(cs.Q, 2), an.key)
+	key := fmt.Sprintf("%s/%s/q%d/%s", cs.label(), extraKey, min(cs.Q, 2), an.key)
 	c.Distinct("orders", key)
 	if an.nontrivial {
 		c.Distinct("nontrivial", key)
@@ -1569,7 +1724,9 @@ func runSlowDone(c *vf.Ctx, cs *caseRec) ([]string, bool) {
 			return nil, false
 		}
 	}
-	c.Count("slowdone_windows_entered", 1)
+	if cs.Fault == "" {
+		c.Count("slowdone_windows_entered", 1)
+	}
 	c.Count("slowdone_stop:"+map[bool]string{true: "returned-while-writer-held", false: "parked"}[closed(st.done)], 1)
 	close(g.release)
 	_ = p
@@ -1879,8 +2036,10 @@ func runFlushK(c *vf.Ctx, cs *caseRec) ([]string, bool) {
 			return guard("the flush to drain")
 		}
 	}
-	c.Count("flushk_rounds", 1)
-	c.Count(fmt.Sprintf("flushk_total=k*b%+d", cs.FlushD), 1)
+	if cs.Fault == "" {
+		c.Count("flushk_rounds", 1)
+		c.Count(fmt.Sprintf("flushk_total=k*b%+d", cs.FlushD), 1)
+	}
 	for i := 0; i < cs.After; i++ {
 		s.enqueue(mainA, s.objs[1+fresh+i])
 	}
@@ -2124,6 +2283,12 @@ func child(c *vf.Ctx) {
 		for i := range b.Cases {
 			cs := &b.Cases[i]
 			bs, _ := json.Marshal(cs)
+			curBatchPos.Store(int64(i))
+			if cs.Fault != "" {
+				// this case may end the process: hand over what was counted so far (main goroutine, no
+				// run in progress)
+				c.FlushStats()
+			}
 			c.Mark(string(bs))
 			if _, ok := runCase(c, cs); !ok {
 				// leaked live goroutines: this process cannot decide further cases; the parent
@@ -2188,7 +2353,7 @@ func configs() []cfg {
 	return out
 }
 
-func genCases(c *vf.Ctx) (plain, race, onep, onepRace []caseRec) {
+func genCases(c *vf.Ctx) (plain, race, onep, onepRace, faults []caseRec) {
 	cfgs := configs()
 	rng := c.Rand("cases")
 	idx := 0
@@ -2382,6 +2547,65 @@ func genCases(c *vf.Ctx) (plain, race, onep, onepRace []caseRec) {
 			plain = append(plain, cs)
 		}
 	}
+	// Store-fault family (plain build, own shards: the unchanged writer panics on a store error, so
+	// nearly every case ends its process). A case borrows the schedule of another family and makes
+	// ONE store call fail: the k-th BatchedMutations.Commit, the k-th store.Batched(), or the k-th
+	// BatchWrite of an object (which panics). k runs over every ordinal the schedule can reach (and
+	// one or two beyond: such a fault never fires and the run is an ordinary one).
+	withFault := func(cs caseRec, kind string, at int) caseRec {
+		idx++
+		cs.Idx, cs.Fault, cs.FaultAt = idx, kind, at
+		return cs
+	}
+	ceilDiv := func(a, b int) int { return (a + b - 1) / b }
+	for rep := c.Pick(1, 10); rep > 0; rep-- {
+		for _, cf := range cfgs {
+			calm := cf.ns >= int64(time.Millisecond) // the time-out does not fire while queued objects are drained
+			if cf.b <= 5 {
+				// multi-batch Flush: k*b+d objects (k up to 5) are queued behind a writer held in its first
+				// BatchWrite, Flush, drain, 1-3 further objects, Stop
+				base := mk("flushk", cf)
+				base.FlushK, base.FlushD, base.After = 1+rng.Intn(5), rng.Intn(3)-1, 1+rng.Intn(3)
+				total := max(base.FlushK*cf.b+base.FlushD, 1)
+				if calm {
+					// every Commit ordinal of the run: intermediate and final commits of the flush, then the
+					// size / time-out commits of the later objects and the drain at Stop
+					for k := 1; k <= ceilDiv(total, cf.b)+base.After+1; k++ {
+						faults = append(faults, withFault(base, "commit", k))
+					}
+					faults = append(faults, withFault(base, "batched", 1+rng.Intn(ceilDiv(total, cf.b)+base.After+2)))
+					faults = append(faults, withFault(base, "batchwrite", 1+rng.Intn(total+base.After)))
+				} else {
+					// a time-out <= 1ns commits at arbitrary points: two seeded ordinals
+					for i := 0; i < 2; i++ {
+						faults = append(faults, withFault(base, "commit", 1+rng.Intn(total+base.After)))
+					}
+				}
+			}
+			// drain at Stop: Enqueue x n immediately followed by Stop
+			es := mk("enqstop", cf)
+			es.InFlight = 1 + rng.Intn(6)
+			faults = append(faults, withFault(es, "commit", 1+rng.Intn(ceilDiv(es.InFlight, cf.b))))
+			if rng.Intn(4) == 0 {
+				faults = append(faults, withFault(es, []string{"batched", "batchwrite"}[rng.Intn(2)], 1+rng.Intn(es.InFlight)))
+			}
+			// writer held inside its first BatchWriteDone while Stop is invoked: every later commit
+			// happens with Stop waiting
+			if calm || cf.b > 1 {
+				sd := mk("slowdone", cf)
+				sd.InFlight = 3 + rng.Intn(4)
+				faults = append(faults, withFault(sd, "commit", 2+rng.Intn(2)))
+			}
+		}
+		for n := 60; n > 0; n-- {
+			cs := stress()
+			if !keep(cs, n) {
+				continue
+			}
+			kind := []string{"commit", "commit", "commit", "batched", "batchwrite"}[rng.Intn(5)]
+			faults = append(faults, withFault(cs, kind, 1+rng.Intn(8)))
+		}
+	}
 	// -race build
 	asRace := func(cs caseRec, bare bool) caseRec { cs.Race, cs.Bare = true, bare; return cs }
 	for rep := c.Pick(1, 14); rep > 0; rep-- {
@@ -2417,12 +2641,18 @@ var digits = regexp.MustCompile(`0x[0-9a-f]+|[0-9]+`)
 // runShard runs a list of cases in child processes: a child that had to stop early (a run left
 // live goroutines behind) names the index to resume at, and a fresh child takes over.
 func runShard(c *vf.Ctx, mode string, cases []caseRec, raceBuild bool, timeout time.Duration) {
+	maxRestarts := 400
+	for _, cs := range cases {
+		if cs.Fault != "" {
+			maxRestarts++ // a fired store fault legitimately ends the process (fail-stop)
+		}
+	}
 	for restarts := 0; len(cases) > 0; restarts++ {
 		next := runShardOnce(c, mode, cases, raceBuild, timeout)
 		if next <= 0 || next >= len(cases) {
 			return
 		}
-		if restarts >= 400 {
+		if restarts >= maxRestarts {
 			c.Inconclusive(fmt.Sprintf("shard abandoned after %d child restarts, %d cases not run", restarts, len(cases)-next))
 			return
 		}
@@ -2455,7 +2685,41 @@ func runShardOnce(c *vf.Ctx, mode string, cases []caseRec, raceBuild bool, timeo
 	}
 	var last caseRec
 	json.Unmarshal([]byte(res.LastMark), &last)
+	// store-fault family: the last fault the child announced
+	var fired *faultRec
+	for _, r := range res.Records {
+		if r.Kind == "fault-fired" {
+			var fr faultRec
+			if json.Unmarshal(r.V, &fr) == nil {
+				fired = &fr
+				c.Count("fault_fired", 1)
+				c.Count("fault_fired:"+fr.Class, 1)
+				c.Count("fault_fired_kind="+fr.Kind, 1)
+				if fr.Stop {
+					c.Count("fault_fired_with_stop_invoked", 1)
+				}
+			}
+		}
+	}
 	switch {
+	case !res.TimedOut && !res.Deadlock && res.ExitCode != 0 && last.Fault != "" && fired != nil && fired.Idx == last.Idx &&
+		!(raceBuild && res.ExitCode == 66 && res.Fatal == ""):
+		// Fail-stop: the process died in the case whose injected store fault had just fired. That is
+		// what the unchanged writer does (it panics on a store error in its own goroutine) and it is
+		// legitimate: nothing was lost silently. How it died is not judged; whether the injected
+		// error shows in the death message is only counted.
+		c.Count("fault_failstop_child_deaths", 1)
+		c.Count("fault_failstop:"+fired.Class, 1)
+		if strings.Contains(res.Stderr, errInjected.Error()) {
+			c.Count("fault_failstop_deaths_showing_the_injected_error", 1)
+		} else {
+			c.Note(fmt.Sprintf("%s: process died after the injected store fault fired, but not with the injected error: %s", last.name(), res.Fatal))
+		}
+		os.Remove(res.StderrPath)
+		if mode == "batch" {
+			return fired.I + 1
+		}
+		return 0
 	case res.TimedOut || res.Deadlock:
 		// watchdog: decided only if a permanence rule matches the SIGQUIT dump
 		gs := gdump.Parse(res.Stderr)
@@ -2594,8 +2858,9 @@ func run(c *vf.Ctx) {
 		replay(c)
 		return
 	}
-	c.SetRule("one evaluation = one run of the real BatchedWriter (mapdb behind a logging wrapper) whose merged event log is checked after all callers returned or were decided blocked for ever and the writer goroutine exited; runs are gated (producer parked at bw.enqueue.afterRunningCheck / bw.enqueue.beforeSend while StopBatchWriter completes or parks; queue {0,1,2,256} x batch {1,2,5,1000} x time-out {0,1ns,1ms,20ms,-1ms} x 0-3 objects in flight x release early/late), 'Enqueue immediately followed by Stop', duplicate-Enqueue-retracts-while-a-Flush-is-served (one Enqueue held at beforeSend, a duplicate held inside BatchWriteScheduled after it found the flag set), slow-acknowledgement (writer held inside the first BatchWriteDone while Stop is invoked), flush-boundary (Flush while k*b+d objects, k in 1..3, d in -1..1, are collected/queued, one of the first batch re-enqueued during the drain, further Enqueues afterwards), multi-writer (2-3 writers alive together over separate stores, constructed one after the other with different options, optionally one with a huge time-out and batch size that only a Flush commits), two-writer gated (one writer held inside the first BatchWriteDone of a committed batch of 2-5 objects while the other collects, commits and acknowledges a batch of its own; also in children with GOMAXPROCS=1, together with a slice of the multi-writer and cold-start rounds), cold start (fresh writer, 2-8 producers released together for their very first Enqueue, Stop only after all returned), and seeded stress (1-8 producers, 1-4 objects, Flush, jittered yields, Stop at a random operation count), in plain and -race builds; distinct_nontrivial counts distinct (scenario, gate state, queue class, order of yield/flag/send-return/Stop-return/BatchWrite/Commit/Done/Cancel/Batched events from Stop's invocation on) of runs in which at least one Enqueue overlapped StopBatchWriter or an accepted object was still unwritten when Stop was invoked")
-	plain, race, onep, onepRace := genCases(c)
+	c.SetRule("one evaluation = one run of the real BatchedWriter (mapdb behind a logging wrapper) whose merged event log is checked after all callers returned or were decided blocked for ever and the writer goroutine exited; runs are gated (producer parked at bw.enqueue.afterRunningCheck / bw.enqueue.beforeSend while StopBatchWriter completes or parks; queue {0,1,2,256} x batch {1,2,5,1000} x time-out {0,1ns,1ms,20ms,-1ms} x 0-3 objects in flight x release early/late), 'Enqueue immediately followed by Stop', duplicate-Enqueue-retracts-while-a-Flush-is-served (one Enqueue held at beforeSend, a duplicate held inside BatchWriteScheduled after it found the flag set), slow-acknowledgement (writer held inside the first BatchWriteDone while Stop is invoked), flush-boundary (Flush while k*b+d objects, k in 1..3, d in -1..1, are collected/queued, one of the first batch re-enqueued during the drain, further Enqueues afterwards), multi-writer (2-3 writers alive together over separate stores, constructed one after the other with different options, optionally one with a huge time-out and batch size that only a Flush commits), two-writer gated (one writer held inside the first BatchWriteDone of a committed batch of 2-5 objects while the other collects, commits and acknowledges a batch of its own; also in children with GOMAXPROCS=1, together with a slice of the multi-writer and cold-start rounds), cold start (fresh writer, 2-8 producers released together for their very first Enqueue, Stop only after all returned), and seeded stress (1-8 producers, 1-4 objects, Flush, jittered yields, Stop at a random operation count), in plain and -race builds; store faults (plain build, fresh processes): the flush-boundary (k up to 5), Enqueue-then-Stop, slow-acknowledgement and stress schedules are re-run with ONE failing store call - the i-th BatchedMutations.Commit (every ordinal the schedule reaches when the time-out is >= 1ms, seeded ordinals otherwise), the i-th store.Batched(), or the i-th BatchWrite (panics); the process may die (fail-stop, what the unchanged writer does) or must behave as usual, a run that survives the fault is judged by the same log oracle with the failed batch's writes counted as not happened; distinct_nontrivial counts distinct (scenario, gate state, queue class, order of yield/flag/send-return/Stop-return/BatchWrite/Commit/Done/Cancel/Batched events from Stop's invocation on) of runs in which at least one Enqueue overlapped StopBatchWriter or an accepted object was still unwritten when Stop was invoked")
+	plain, race, onep, onepRace, faults := genCases(c)
+	c.Count("cases_generated_store_fault", len(faults))
 	c.Count("cases_generated_plain", len(plain))
 	c.Count("cases_generated_race", len(race))
 	nShard := c.Pick(8, 12)
@@ -2614,6 +2879,9 @@ func run(c *vf.Ctx) {
 		jobs = append(jobs, job{sh, false})
 	}
 	jobs = append(jobs, job{onepRace, true})
+	for _, sh := range shards(faults, c.Pick(6, 12)) {
+		jobs = append(jobs, job{sh, false})
+	}
 	c.Count("cases_generated_gomaxprocs1", len(onep)+len(onepRace))
 	workers := runtime.NumCPU() * 3 / 4
 	if workers < 1 {
@@ -2663,8 +2931,19 @@ func run(c *vf.Ctx) {
 	}
 	c.Require("runs_batch_larger_than_objects", par(c.Pick(700, 8000)))
 	c.Require("runs_queue_large", par(c.Pick(700, 8000)))
+	// store-fault family: faults that really fired, per observable trigger of the failing Commit
+	// (full batch / partial batch, with and without a Flush request, with Stop already invoked)
+	c.Require("fault_fired", c.Pick(250, 2500))
+	c.Require("fault_fired:commit/batch-full/flush-requested/before-stop", c.Pick(40, 400))
+	c.Require("fault_fired:commit/batch-partial/flush-requested/before-stop", c.Pick(15, 150))
+	c.Require("fault_fired:commit/batch-full/no-flush/before-stop", c.Pick(10, 100))
+	c.Require("fault_fired:commit/batch-partial/no-flush/before-stop", c.Pick(10, 100))
+	c.Require("fault_fired_with_stop_invoked", c.Pick(30, 300))
+	c.Require("fault_fired_kind=batched", c.Pick(15, 150))
+	c.Require("fault_fired_kind=batchwrite", c.Pick(15, 150))
 	c.Assume("runtime.Stack(all) snapshots are consistent (stop-the-world); only the writer goroutine (any goroutine of package kvstore not created by the harness) receives from batchQueue and calls writeWg.Done, and autoStartOnce prevents a second writer goroutine – which makes the two permanence rules sound")
 	c.Assume("mapdb (the backing store) commits a batch atomically and reads back what was committed")
+	c.Assume("store faults: a process that dies after the injected fault fired has failed loudly (fail-stop) - how it dies is not judged; a library that tries the failed Commit again on the same mutations object, or writes the objects again into a new batch, is accepted")
 }
 
 func main() { vf.Main("C08", "exploration", run, child) }
